@@ -113,12 +113,31 @@ def truth_view(world):
                                    'chrom': gene['chrom'], 'gene': gene['id']}
     return out
 
-def world_facts(world):
+def world_prots(world):
+    """transcript id -> protein sequence AS WRITTEN TO THE PROTEOME FASTA: the translation of the CDS unless
+    the case overrides it (world['prot_override']: leading X, inner *, designed sequences)"""
     prots = {}
+    ov = world.get('prot_override') or {}
     for gene in world['genes']:
         for tx in gene['transcripts']:
             if tx['cds']:
-                prots[tx['id']] = G.protein_of(world, gene, tx)
+                prots[tx['id']] = ov.get(tx['id'], G.protein_of(world, gene, tx))
+    return prots
+
+def write_world(world, d):
+    g, a, p = G.write_world(world, d)
+    if world.get('prot_override'):
+        prots = world_prots(world)
+        with open(p, 'w') as f:
+            for gene in world['genes']:
+                for tx in gene['transcripts']:
+                    if tx['cds']:
+                        prot = prots[tx['id']]
+                        f.write('>%s|%s|%s|-|-|%s|%d\n%s\n' % (tx['protein_id'], tx['id'], gene['id'], gene['name'], len(prot), prot))
+    return g, a, p
+
+def world_facts(world):
+    prots = world_prots(world)
     return {'genome': dg(sorted(world['chroms'].items())), 'proteome': dg(sorted(prots.items())),
             'anno': dg(truth_view(world)), 'prots': prots}
 
@@ -134,7 +153,7 @@ class Env:
         for i, w in enumerate(worlds):
             d = os.path.join(self.base, 'ref%d' % i)
             os.makedirs(d)
-            self.paths.append(G.write_world(w, d))
+            self.paths.append(write_world(w, d))
             self.facts.append(world_facts(w))
         self.idx = os.path.join(self.base, 'index')
         self.snap = 0
@@ -316,12 +335,17 @@ def read_fasta(path):
 
 def do_ref(c):
     w = c['world']
+    flag = bool(c.get('invalid_as_noncoding'))
     env = Env([w])
     g, a, p = env.paths[0]
     argv = ['generateIndex', '-g', g, '-a', a, '-p', p, '-o', env.idx, '--quiet']
     if c.get('symlink'):
         argv.append('--gtf-symlink')
+    if flag:
+        argv.append('--invalid-protein-as-noncoding')
     out = outcome(lambda: _cli.run(argv))
+    if out == 'ok' and c.get('then_update'):
+        out = outcome(lambda: _cli.run(['updateIndex', '--index-dir', env.idx, '--quiet', '-c', 'lysc', '-m', 1]))
     res = {'out': out, 'diffs': []}
     if out == 'ok':
         ix = IndexDir(Path(env.idx))
@@ -332,20 +356,33 @@ def do_ref(c):
             res['diffs'].append('genome != ground truth')
         if ge != {k.split()[0]: v for k, v in raw.items()}:
             res['diffs'].append('genome != raw fasta')
-        # proteome: keyed by transcript id
-        pr = {k: str(v.seq) for k, v in ix.load_proteome().items()}
+        # proteome: record by record against the FASTA file parsed here (ids and sequences), through both loaders
         truth = env.facts[0]['prots']
-        if pr != truth:
-            res['diffs'].append('proteome != ground truth')
         rawp = {k.split('|')[1]: v for k, v in read_fasta(p).items()}
-        if pr != rawp:
-            res['diffs'].append('proteome != raw fasta')
+        ns = argparse.Namespace(index_dir=Path(env.idx))
+        _, _, via_refs, _ = common.load_references(ns, load_genome=False, load_canonical_peptides=False, load_proteome=True)
+        for name, loaded in (('IndexDir.load_proteome', ix.load_proteome()), ('load_references', via_refs)):
+            pr = {k: str(v.seq) for k, v in loaded.items()}
+            for k in sorted(set(pr) | set(rawp)):
+                if k not in pr:
+                    res['diffs'].append('%s: protein %s of the FASTA is missing' % (name, k))
+                elif k not in rawp:
+                    res['diffs'].append('%s: protein %s is not in the FASTA' % (name, k))
+                elif pr[k] != rawp[k]:
+                    res['diffs'].append('%s: protein %s is %s, the FASTA says %s' % (name, k, pr[k][:40], rawp[k][:40]))
+            if any(getattr(v, 'transcript_id', k) != k for k, v in loaded.items()):
+                res['diffs'].append('%s: transcript ids of the records differ from their keys' % name)
+            if pr != truth:
+                res['diffs'].append('%s != ground truth' % name)
         # annotation through the saved idx files vs a fresh index of the original GTF vs ground truth
         an = ix.load_annotation()
         v1 = anno_view(an)
         fresh = gtf.GenomicAnnotationOnDisk()
         fresh.generate_index(Path(a), source=None)
-        fresh.check_protein_coding(ix.load_proteome(), True)
+        from moPepGen.aa.AminoAcidSeqDict import AminoAcidSeqDict
+        fp = AminoAcidSeqDict()
+        fp.dump_fasta(Path(p), source=None)
+        fresh.check_protein_coding(fp, flag)
         v2 = anno_view(fresh)
         if v1 != v2:
             res['diffs'].append('annotation loaded from the index != annotation parsed from the original GTF')
@@ -362,13 +399,15 @@ def do_ref(c):
         # the GTF copy is byte-identical
         if open(os.path.join(env.idx, 'annotation.gtf'), 'rb').read() != open(a, 'rb').read():
             res['diffs'].append('annotation.gtf bytes')
-        # coding transcripts: those with a CDS whose protein is in the proteome
+        # coding transcripts: those with a CDS whose protein is in the FASTA (and, with
+        # --invalid-protein-as-noncoding, has no '*'), from the ground truth
         ct = set(ix.load_coding_tx())
         exp = {k for k, x in v2['tx'].items() if x['coding']}
         if ct != exp:
             res['diffs'].append('coding transcripts != is_protein_coding of the annotation')
-        gt_coding = {t['id'] for ge_ in w['genes'] for t in ge_['transcripts'] if t['cds']}
-        res['coding_vs_truth'] = [sorted(ct - gt_coding), sorted(gt_coding - ct)]
+        gt_coding = {k for k, s_ in truth.items() if not (flag and '*' in s_)}
+        if ct != gt_coding:
+            res['diffs'].append('coding transcripts %s != ground truth %s' % (sorted(ct), sorted(gt_coding)))
         res['n_tx'] = len(v1['tx'])
         res['n_coding'] = len(ct)
     env.close()
